@@ -208,6 +208,9 @@ class Outcome:
     def digest(self):
         h = hashlib.sha256()
         h.update(self.kind().encode())
+        if self.kind() == "timeout":
+            # killed by the watchdog at an arbitrary instant: nothing after the kind is reproducible
+            return h.hexdigest()[:16]
         h.update(struct.pack("<iQ", self.status if self.done else -1, self.event_hash))
         h.update(self.stdout)
         for p, k, d in self.delta:
@@ -261,6 +264,7 @@ def build_request(mode, argv=(), files=None, faults=(), console=(), sigs=(), env
         w.u8({"usleep": 0, "event": 1, "stdout": 2, "during": 3}[s["trigger"]])
         w.u64(s["k"])
         w.u32(s.get("after", 0))
+        w.u32(s.get("repeat", 0))
     w.b += extra
     return bytes(w.b)
 
